@@ -35,6 +35,10 @@ def run(chk):
     legacy_solver.surface(chk, repo, d, 'R02.6')
     legacy_solver.driver_bc(chk, repo, d, 'R02.6')
     chk.floor('R02.6', 19)
+    # ---- R02.7 / R02.8 on the ASSEMBLED result of the whole driver (symbolic execution of cf_radial_solver with the integration abstracted)
+    from . import solver_whole
+    solver_whole.assembled(chk, repo, 'R02.7', 'R02.8', None)
+    chk.floor('R02.7', 20); chk.floor('R02.8', 25)
     chk.floor('R02.1', 6); chk.floor('R02.2', 17); chk.floor('R02.3', 16); chk.floor('R02.4', 40); chk.floor('R02.5', 16)
     chk.assume('gravity, densities, G > 0; layer solutions arbitrary complex numbers (generic: the denominators y4 of the third solid solution and lambda_2 are non-zero)')
 
